@@ -1037,7 +1037,10 @@ def describe(case):
         json.dumps({k: v for k, v in strip_case(case).items() if k not in ('votes', 'op')})
 
 
-REQUIRED = ['pav_eq_spec']
+REQUIRED = ['pav_eq_spec', 'pavSpec_some_iff', 'pav_returns_iff_unique_maximiser', 'pav_refuses_iff', 'pav_maximises',
+            'pav_result_shape', 'pav_order_desc', 'pav_cache_independent', 'pavSeq_eq_map',
+            'spav_eq_spec', 'spav_round_argmax', 'spav_error_is_tie',
+            'score_aggregate_eq_spec', 'mj_median_is_lower_median', 'score_mean_exact', 'score_eq_spec']
 UNPROVED = []
 NOT_VERIFIED = []
 RULE = ''
